@@ -27,10 +27,20 @@ RULE = (
 ASSUMPTIONS = [
     "the harness owns per-file delays, not the GIL: interleavings inside one file's transformation are not enumerated (one FileContext per file, results merged after executor shutdown)",
     "normalise() removes run.elapsed, run.commandLine and the absolute project directory; everything else, including the order of results, changesets and change entries, must be equal",
+    "the creation-order dimension needs a file system whose directory enumeration follows creation order: those runs are placed on /dev/shm (tmpfs) when it exists; on ext4 enumeration is hash order and the dimension is vacuous (label creation-order-effective is only set when two enumerations were observed to differ)",
     "sibling-independent = every codemod except the Django settings pair (which look for manage.py) and dependency writers (manifest discovery)",
 ]
 
 DELAY_MARK = "# __F%d__"
+
+
+def tmpfs_base():
+    """Directory enumeration follows creation order on tmpfs (on ext4 it is hash order and does not vary), so the
+    creation-order dimension runs on /dev/shm when it is available."""
+    d = "/dev/shm"
+    if os.path.isdir(d) and os.access(d, os.W_OK):
+        return os.path.join(d, "cmv-scratch")
+    return None
 
 
 def seam_schedule(delays_ms, monitor_file, min_sleep_ms):
@@ -188,7 +198,7 @@ def eval_schedule(case, stats=None):
     st_ = stats or core.Stats()
     v0 = len(st_.violations)
     p = case["project"]
-    with runner.scratch("c11a") as r0, runner.scratch("c11b") as r1:
+    with runner.scratch("c11a", tmpfs_base()) as r0, runner.scratch("c11b", tmpfs_base()) as r1:
         res0, tree0, rels, _, proj0 = run_config(p, Path(r0), 1)
         res1, tree1, _, mon, proj1 = run_config(p, Path(r1), case["workers"], case["delays"], list(case["order"]), min_sleep=0)
         o0, o1 = outcome(res0, tree0, proj0), outcome(res1, tree1, proj1)
@@ -204,7 +214,7 @@ def eval_schedule(case, stats=None):
              sample={"selection": p["selection"], "include": p["include"], "workers": case["workers"], "delays": case["delays"], "completion_order": (mon or {}).get("order")})
     if o0 != o1:
         where, a, b = first_difference(o0, o1)
-        st_.violation("run", "outcome-depends-on-workers-or-schedule", case, json.dumps({"where": where, "w1_no_delay": a, "configured": b, "workers": case["workers"]}, default=str)[:4000], features=feats)
+        st_.violation("run", "outcome-depends-on-workers-schedule-or-creation-order", case, json.dumps({"where": where, "w1_no_delay": a, "configured": b, "workers": case["workers"]}, default=str)[:4000], features=feats)
     return st_.violations[v0:]
 
 
